@@ -175,7 +175,8 @@ def c06(tier):
     run = Run("C06", tier)
     n = 1000 if tier == "quick" else 150000
     run.rule = ("pairs (base, shifted) of legend-free inputs: random grids over the full drawing vocabulary incl. "
-                "Unicode glyphs, parametric shapes, paragraphs of the bundled examples; offsets: one small "
+                "Unicode glyphs, parametric shapes, paragraphs of the bundled examples, shapes with {tags} inside, nested "
+                "and underneath; offsets: one small "
                 "(k,n<=8), one medium, one up to 400x200 per base; TLC checks the input relation and the document "
                 "relation; non-trivial = the shifted document has at least one element")
     r = common.rng("C06")
@@ -185,6 +186,21 @@ def c06(tier):
     run.model("MC_Rel", cfg)
     corpus = gen.mixed_corpus(r, n)
     corpus = [t for t in corpus if t.strip() and '"' not in t and "# Legend:" not in t]
+    # shapes with a {tag} inside (the enclosure stage decides by bounding boxes: it must not depend on the place
+    # either), nested, and with the tag written under the shape, where it stays text
+    for i in range(max(40, n // 12)):
+        tg = r.choice(["{a}", "{abc}", "{a1,b2}"])
+        w, kind = len(tg) + r.randint(0, 4), i % 4
+        if kind == 0:
+            corpus.append(gen.box(w, r.randint(1, 3), r.choice(["sharp", "round", "uni"]), tg))
+        elif kind == 1:
+            inner = gen.box(w, 1, "sharp", tg).split("\n")
+            ww = len(inner[0]) + 2
+            corpus.append("\n".join(["+" + "-" * ww + "+"] + ["| " + x + " |" for x in inner] + ["+" + "-" * ww + "+"]))
+        elif kind == 2:
+            corpus.append(gen.box(w, 1, "sharp", "ab") + "\n" + " " * r.randint(0, 3) + tg)
+        else:
+            corpus.append(gen.box(w + 2, 2, "sharp", tg) + "  " + r.choice(["o--", "*", "+--+"]))
     groups = []
     for t in corpus:
         g = [({"input": t}, None)]
